@@ -164,7 +164,10 @@ def build(rng, depth=None, custom_data=None, auth_len=None, windows=None, leaf_c
     """genuine SGX attestation material.  depth = number of x509 elements between
     the root of trust and the attestation key (1..3)."""
     m = Material()
-    depth = depth or rng.choice([1, 2, 2, 3])
+    # (the statement's chains are 1..3 certificates deep; one in sixteen is much deeper:
+    # nothing in the format bounds the number of elements between a target and the root)
+    depth = depth or (rng.choice([1, 2, 2, 3]) if rng.random() >= 1 / 16 else
+                      rng.choice([6, 7, 8, 9, 12, 17]))
     if windows is None:
         # (one chain in six holds a certificate that never expires)
         windows = ["valid"] * depth
